@@ -115,9 +115,9 @@ func main() {
 		all := enumerate(r.Scale(3, 4))
 		r.SetExhaustive(false)
 		r.Cases("gated", len(all), 1, func(c *vkit.Case) { execute(c, all[c.Index]) })
-		reps := r.Scale(1, 10)
+		reps := r.Scale(1, 5)
 		r.Cases("gated-repeat", len(all)*(reps-1), 1, func(c *vkit.Case) { execute(c, all[c.Index%len(all)]) })
-		r.Cases("stress", r.Scale(600, 12000), 1, func(c *vkit.Case) {
+		r.Cases("stress", r.Scale(600, 6000), 1, func(c *vkit.Case) {
 			k := c.Rand.Range(1, 6)
 			s := scenario{K: k, Stages: make([]int, k), Cancels: make([]int, k), Signals: c.Rand.Range(0, 6), Bcast: c.Rand.Bool(0.2)}
 			if c.Rand.Bool(0.3) {
@@ -126,16 +126,16 @@ func main() {
 			s.PreBcast = c.Rand.Bool(0.3)
 			execute(c, s)
 		})
-		r.Cases("bcast-race", r.Scale(4000, 60000), 1, func(c *vkit.Case) { bcastRace(c) })
-		r.Cases("phases", r.Scale(500, 8000), 1, func(c *vkit.Case) { phases(c) })
-		r.Cases("shared", r.Scale(400, 6000), 1, func(c *vkit.Case) { shared(c) })
-		r.Cases("late-entrant", r.Scale(400, 6000), 1, func(c *vkit.Case) { lateEntrant(c) })
-		r.Cases("bcast-overlap", r.Scale(3000, 40000), 1, func(c *vkit.Case) { bcastOverlap(c) })
-		r.Cases("deadline-entry", r.Scale(3000, 40000), 1, func(c *vkit.Case) { deadlineEntry(c) })
+		r.Cases("bcast-race", r.Scale(4000, 20000), 1, func(c *vkit.Case) { bcastRace(c) })
+		r.Cases("phases", r.Scale(500, 3000), 1, func(c *vkit.Case) { phases(c) })
+		r.Cases("shared", r.Scale(400, 2500), 1, func(c *vkit.Case) { shared(c) })
+		r.Cases("late-entrant", r.Scale(400, 2500), 1, func(c *vkit.Case) { lateEntrant(c) })
+		r.Cases("bcast-overlap", r.Scale(3000, 10000), 1, func(c *vkit.Case) { bcastOverlap(c) })
+		r.Cases("deadline-entry", r.Scale(3000, 12000), 1, func(c *vkit.Case) { deadlineEntry(c) })
 		r.Floor("waits entered around the deadline of their context", r.Table("deadline-entry", "rounds"), 2000)
-		r.Cases("gen-mix", r.Scale(400, 6000), 1, func(c *vkit.Case) { genMix(c) })
+		r.Cases("gen-mix", r.Scale(400, 2500), 1, func(c *vkit.Case) { genMix(c) })
 		r.Floor("rounds with waiters of two generations (Broadcast, newcomer, Signal)", r.Table("gen-mix", "rounds"), 300)
-		r.Cases("bcast-vs-reader", r.Scale(3000, 40000), 1, func(c *vkit.Case) { bcastVsReader(c) })
+		r.Cases("bcast-vs-reader", r.Scale(3000, 10000), 1, func(c *vkit.Case) { bcastVsReader(c) })
 		r.Floor("rounds with a Broadcast racing a Signal or a newcomer's entry while older waiters are parked", r.Table("bcast-vs-reader", "rounds"), 2000)
 		r.Floor("late-entrant rounds", r.Table("late-entrant", "rounds"), 300)
 		r.Floor("rounds with two overlapping Broadcasts around a waiter's entry", r.Table("bcast-overlap", "rounds"), 2000)
